@@ -1415,4 +1415,62 @@ Proof.
     + cbn [length] in *. lia.
 Qed.
 
+Lemma aligned_bufsize_bounds B : B < SIZE_LIMIT - 8 -> 24 <= aligned_bufsize B < SIZE_LIMIT.
+Proof.
+  unfold aligned_bufsize, MIN_BUF_SIZE, USIZE_MAX64, ALIGN_ADD, ALIGN_MASK, SIZE_LIMIT. intros H.
+  destruct (N.leb_spec B 24); [lia|]. destruct (N.ltb_spec 18446744073709551615 (B + 7)); lia.
+Qed.
+
+Lemma new_parser_ok B : B < SIZE_LIMIT - 8 -> parser_ok (new_parser B).
+Proof.
+  intros H. pose proof (aligned_bufsize_bounds B H). unfold parser_ok, new_parser. cbn [st held cap].
+  repeat split; try exact I; try lia. constructor. rewrite len_nil. lia.
+Qed.
+
+Lemma preamble_rcds_ne w : preamble_rcds w <> [].
+Proof. unfold preamble_rcds. destruct (w_idle w); discriminate. Qed.
+
+Lemma preamble_exact : preamble_exact_stmt norm maxc.
+Proof.
+  intros B w pairs trailing sched HB Hok Hpo HP Hpf Hfits Htr Hsz.
+  set (c := aligned_bufsize B) in *. set (W := enc_rcds (preamble_rcds w)) in *.
+  set (rq := mkReq (w_id w) (w_role w) (w_flags w) (env_log norm pairs)).
+  pose proof (aligned_bufsize_bounds B HB) as Hc. fold c in Hc.
+  rewrite len_app in Hsz.
+  assert (HPl : len (preamble_payload w) <= USIZE_MAX).
+  { pose proof (len_payload_le w). fold W in H. apply small_usize. lia. }
+  pose proof (preamble_run c w pairs ltac:(lia) Hok Hpo HP Hpf Hfits HPl) as Hrun. fold rq in Hrun.
+  assert (HWok : bytes_ok W) by (apply bytes_ok_enc_rcds; apply (run_rcd_ok _ _ _ _ _ Hrun)).
+  (* the whole preamble *)
+  destruct (run_drive _ _ _ _ _ Hrun (preamble_rcds_ne w) Header I eq_refl) as (s2 & F2 & _ & _ & _ & Es2).
+  { cbn [sbuf]. fold W. lia. }
+  specialize (Es2 eq_refl). subst s2. fold W in F2.
+  (* every proper prefix *)
+  assert (F1 : forall w1 w2, W = w1 ++ w2 -> w2 <> [] ->
+     exists rest s1 o1, drive_all norm maxc Header w1 = DOk rest s1 o1 /\ len rest < c /\ is_final s1 = false).
+  { intros w1 w2 EW Hne.
+    pose proof (run_prefix c _ _ _ _ (proj1 Hc) Hrun Header I eq_refl) as Hp. fold W in Hp.
+    specialize (Hp ltac:(cbn [sbuf]; lia) (len w1)).
+    rewrite EW in Hp. rewrite take_len_app in Hp. apply Hp. rewrite len_app.
+    pose proof (ne_len_pos w2 Hne). lia. }
+  (* the byte-at-a-time schedule *)
+  assert (Hones : run_schedule norm maxc (new_parser B) (W ++ trailing) (repeat 1 (length W))
+                  = SOk (mkParser c [] (Done rq)) true trailing (preamble_replies maxc w)).
+  { unfold run_schedule.
+    apply (ones_run W trailing c rq (preamble_replies maxc w) HWok ltac:(rewrite len_app; lia) F1 F2 W []).
+    - reflexivity.
+    - apply enc_rcds_ne. apply preamble_rcds_ne.
+    - apply new_parser_ok; exact HB.
+    - reflexivity.
+    - reflexivity.
+    - unfold sched_fuel. rewrite app_length, repeat_length. lia.
+    - lia. }
+  assert (Hwire : bytes_ok (W ++ trailing)) by (apply bytes_ok_app; split; assumption).
+  assert (Hwl : len (W ++ trailing) < SIZE_LIMIT) by (rewrite len_app; lia).
+  destruct (HST B (W ++ trailing) sched HB Hwire Hwl) as (p & d & u & o & Hs & _).
+  destruct (HSI B (W ++ trailing) _ _ _ _ _ _ _ _ _ _ HB Hwire Hwl Hones Hs) as (Ed & _ & Est & Eo & Eh).
+  subst d o. exists p, u. split; [exact Hs|]. split; [symmetry; apply Est; reflexivity|].
+  rewrite <- Eh. reflexivity.
+Qed.
+
 End Records.
